@@ -251,7 +251,8 @@ def run(ctx):
             sets = set(r[qi][2] for r in fresh_runs)
             hist_ords = set(o[0] for o in hist_obs.get(qi, []))
             desc = {'source': src if len(src) < 4000 else src[:4000], 'path': path, 'query': q,
-                    'fresh_runs': len(fresh_runs)}
+                    'fresh_runs': len(fresh_runs),
+                    'histories': [[qs[i] for i in hist] for (sj, hist) in hist_index if sj == si and qi in hist][:3]}
             if len(sets) > 1:
                 ctx.violation('nondeterministic-content:%s' % q[0], 'fresh processes return different result SETS for the same '
                               'query (an element of an inferred value set is picked by iteration order)', desc)
